@@ -10,7 +10,7 @@ from vdriver import log
 # --------------------------------------------------------------------------- engines
 HIST = {
     "name": "hist",
-    "units": [("hist_main.cpp", [])] + [("hist_simple.cpp", ["-DVK_LABEL=%d" % k]) for k in range(7)] +
+    "units": [("hist_main.cpp", [])] + [("hist_simple.cpp", ["-DVK_LABEL=%d" % k]) for k in range(8)] +
              [("hist_multi.cpp", []), ("hist_weighted.cpp", [])],
 }
 
